@@ -12,6 +12,9 @@ from .hir import Unrecognised
 
 IDENTITY_METHODS = {"as_ref", "as_str", "as_deref", "clone", "to_owned", "borrow", "deref", "as_mut", "into", "iter",
                     "to_string", "as_slice", "cloned", "to_path_buf", "as_path"}
+import os as _os
+CANON = _os.environ.get("OG_CANON", "1") != "0"
+
 IDENTITY_FNS = ("convert::AsRef::as_ref", "clone::Clone::clone", "string::ToString::to_string", "convert::Into::into",
                 "convert::From::from", "borrow::ToOwned::to_owned")
 
@@ -231,12 +234,24 @@ def pat_label(p):
     return H.pat_desc(p)
 
 
+def option_match(labels, arms):
+    """Index of the Some/Ok arm of a two-armed match over an Option/Result without guards, else None."""
+    if len(labels) != 2 or any(a.get("guard") for a in arms):
+        return None
+    for i in (0, 1):
+        other = labels[1 - i]
+        if labels[i].startswith(("Some(", "Ok(")) and (other.rsplit("::", 1)[-1] in ("None", "_") or other.startswith("Err(")):
+            return i
+    return None
+
+
 class NF:
     """Expression -> normal form, for one function body (params are roots)."""
 
     def __init__(self, facts, consts=None):
         self.F = facts
         self.consts = consts or {}
+        self._clos = {}   # id -> (closure node, environment at its definition): closures bound to locals are applied at their calls
 
     def nf(self, e, env):
         if e is None:
@@ -298,6 +313,12 @@ class NF:
                 env_a = env.child()
                 bind_pattern(a["pat"], scrut, env_a)
                 arms.append((pat_label(a["pat"]), self.nf(a["body"], env_a)))
+            if len(arms) == 2 and not any(a.get("guard") for a in e["arms"]):
+                # `match opt { Some(x) => a, None => b }` is `if let Some(x) = opt { a } else { b }`
+                labels = [l for l, _ in arms]
+                for i in (0, 1):
+                    if labels[i].startswith(("Some(", "Ok(")) and (labels[1 - i].rsplit("::", 1)[-1] in ("None", "_") or labels[1 - i].startswith("Err(")):
+                        return ("ifelse", ("islet", labels[i], scrut), arms[i][1], arms[1 - i][1])
             return ("match", scrut, tuple(arms))
         if k == "MethodCall":
             return self.method_nf(e, env)
@@ -310,6 +331,12 @@ class NF:
             path = H.callee_path(e) or "?"
             decl = H.decl_path(e) or path
             args = tuple(self.nf(a, env) for a in e["args"])
+            f0 = H.strip(e["f"])
+            if f0.get("k") == "Path" and f0.get("res") == "local":
+                fv = env.get(f0["id"])
+                if isinstance(fv, tuple) and fv[0] == "closure" and fv[1] in self._clos:
+                    clo, cenv = self._clos[fv[1]]
+                    return self.closure_apply(clo, list(args), cenv)
             if any(decl.endswith(s) for s in IDENTITY_FNS) and len(args) == 1:
                 return args[0]
             f = H.strip(e["f"])
@@ -322,6 +349,7 @@ class NF:
             return ("call", "struct:" + (e["path"].get("path") or "?"),
                     tuple(("field_init", f["name"], self.nf(f["e"], env)) for f in e["fields"]))
         if k == "Closure":
+            self._clos[id(e)] = (e, env)
             return ("closure", id(e))
         if k == "Index":
             return ("elem", self.nf(e["a"], env))
@@ -690,7 +718,13 @@ class Extractor:
         if k == "MethodCall" and e["name"] == "write_fmt":
             fa = e["args"][0]
             nf = self.NF.format_nf(fa, env)
-            out.append(Emit(fn, e, fa, nf[1], ctx, how, len(out), e["recv"]))
+            if CANON:
+                if getattr(self, "CE", None) is None:
+                    self.CE = CallExpander(self.F)
+                for parts, extra in canon_parts(nf[1], self.CE):
+                    out.append(Emit(fn, e, fa, parts, ctx + extra, how, len(out), e["recv"]))
+            else:
+                out.append(Emit(fn, e, fa, nf[1], ctx, how, len(out), e["recv"]))
             return
         if k == "MethodCall" and e["name"] in ("unwrap", "expect") and self._writes(e["recv"]):
             return self._visit(fn, e["recv"], env, ctx, out, "unwrap")
@@ -718,10 +752,17 @@ class Extractor:
             return
         if k == "Match":
             scrut = self.NF.nf(e["scrut"], env)
-            for a in e["arms"]:
+            labels = [pat_label(a["pat"]) for a in e["arms"]]
+            some = option_match(labels, e["arms"])
+            for i, a in enumerate(e["arms"]):
                 env_a = env.child()
                 bind_pattern(a["pat"], scrut, env_a)
-                self._visit(fn, a["body"], env_a, ctx + (("alt", ("islet", pat_label(a["pat"]), scrut), True),), out, how)
+                if some is not None:
+                    # `match opt { Some(x) => .., None => .. }` reads as `if let Some(x) = opt { .. } else { .. }`
+                    alt = ("alt", ("islet", labels[some], scrut), i == some)
+                else:
+                    alt = ("alt", ("islet", labels[i], scrut), True)
+                self._visit(fn, a["body"], env_a, ctx + (alt,), out, how)
             return
         if k == "For":
             it = self.NF.nf(e["iter"], env)
@@ -1064,8 +1105,10 @@ class CallExpander:
                 names.append(name)
         # only straight-line bodies (no loops / early returns)
         for x in H.exprs(nb["value"]):
-            if x.get("k") in ("For", "Loop", "Ret", "Try", "Match"):
+            if x.get("k") in ("For", "Loop", "Ret", "Try"):
                 return None
+            if x.get("k") == "Match" and option_match([pat_label(a["pat"]) for a in x.get("arms", [])], x.get("arms", [])) is None:
+                return None  # only `match opt { Some(..) => .., None => .. }`, which reads as if-let; tables and variant dispatch stay opaque calls
         v = self.NF.nf(nb["value"], env)
         if any(r[0] in ("unknown", "local") for r in nf_roots(v)):
             return None
@@ -1090,6 +1133,55 @@ class CallExpander:
         if n[0] == "list":
             return ("list", tuple(tuple([x[0]] + [self.expand(y, depth) for y in x[1:]]) for x in n[1]))
         return tuple(self.expand(x, depth) if isinstance(x, tuple) else x for x in n)
+
+
+def _literal_only(n):
+    return not [r for r in nf_roots(n) if r[0] != "lit"]
+
+
+def canon_parts(parts, CE, limit=24):
+    """Canonical form of a template: Display holes whose value is itself a text template are spliced into the template
+    (`format!`, string literals) and holes that choose between templates (`if`/`if let`/two-armed option `match`, after expanding
+    local helper functions and closures) become one variant per branch under an added ("alt", cond, branch) context. Guards
+    (one branch a literal, the other a value: `if n == "Self" { "Self_" } else { n }`) stay one value. A hole that has no such
+    structure is returned as it was (unexpanded). Returns [(parts, extra_ctx)]."""
+    variants = [([], ())]
+    for p in parts:
+        if p[0] == "lit":
+            variants = [(v + [p], c) for v, c in variants]
+        else:
+            subs = _canon_hole(p, CE, limit)
+            variants = [(v + list(sp), c + sc) for v, c in variants for sp, sc in subs][:limit]
+    out = []
+    for v, c in variants:
+        merged = []
+        for p in v:
+            if p[0] == "lit" and merged and merged[-1][0] == "lit":
+                merged[-1] = ("lit", merged[-1][1] + p[1])
+            elif p[0] == "lit" and p[1] == "":
+                continue
+            else:
+                merged.append(p)
+        out.append((tuple(merged), c))
+    return out
+
+
+def _canon_hole(p, CE, limit):
+    nf, tr = p[1], p[2]
+    ty = p[3] if len(p) > 3 else "?"
+    if tr != "display" or not isinstance(nf, tuple):
+        return [([p], ())]
+    e = CE.expand(nf) if CE is not None else nf
+    k = e[0]
+    if k == "lit" and isinstance(e[1], str):
+        return [([("lit", e[1])], ())]
+    if k == "format":
+        return canon_parts([(q if q[0] == "lit" else (("hole",) + tuple(q[1:]) + (("?",) if len(q) < 4 else ()))) for q in e[1]], CE, limit)
+    if k == "ifelse" and isinstance(e[2], tuple) and isinstance(e[3], tuple) and _literal_only(e[2]) == _literal_only(e[3]):
+        a = _canon_hole(("hole", e[2], tr, ty), CE, limit)
+        b = _canon_hole(("hole", e[3], tr, ty), CE, limit)
+        return [(sp, (("alt", e[1], True),) + sc) for sp, sc in a] + [(sp, (("alt", e[1], False),) + sc) for sp, sc in b]
+    return [([p], ())]
 
 
 def sanitiser_chain(n):
